@@ -188,7 +188,9 @@ def main_check(pid, tier, seed, jobs=16, repo="/repo", nseeds=None, wall_cap=Non
             if r["outcome"] == "harness_error":
                 harness_problems.append("regression replay %s: %s" % (e["replay"], r["error"]))
             elif r["violations"]:
-                regress_fail.append((path, r["violations"][0]))
+                vs_ = [v for v in r["violations"] if not any(matches_known(e2, prop, scn, v) for e2 in known)]
+                if vs_:
+                    regress_fail.append((path, vs_[0]))
     rdir = os.path.join(VERIF, "replays", "regress", pid)
     if os.path.isdir(rdir):
         for fn in sorted(os.listdir(rdir)):
